@@ -51,8 +51,8 @@ def file_specs(tier: str) -> list:
     for sp in specs:
         # 0.7 s per entity-lump parse of the sample; 15 ms per recompressed lump (the compression
         # dimension is orthogonal to the access history, so fewer histories per compressed file)
-        sp['heavy'] = sp['layout'] == 'sample' or (bool(sp['compress']) and tier != 'thorough')
-        sp['parts'] = 8 if sp['layout'] == 'sample' else (4 if tier == 'thorough' and not sp['compress'] else 1)
+        sp['heavy'] = sp['layout'] == 'sample' or bool(sp['compress']) or sp['variant'].startswith('sprp:')
+        sp['parts'] = 8 if sp['layout'] == 'sample' else (4 if tier == 'thorough' and not sp['heavy'] else (2 if sp['heavy'] else 1))
     return specs
 
 
@@ -85,13 +85,20 @@ def prepare(work: str, tier: str) -> None:
     for spec in specs:
         path = os.path.join(work, spec['id'] + '.bsp')
         build_file(spec, path)
-        K = L.measure(path, tracer, work)
+        try:
+            K = L.measure(path, tracer, work)
+        except Exception as exc:    # noqa: BLE001 - the code under test cannot even read/save this file
+            spec['measure_error'] = type(exc).__name__
+            tracer.on = False
+            tracer.stack.clear()
+            tracer.take()
+            K = L.stub_constants()
         key = json.dumps(K, sort_keys=True)
         for g in groups:
             if g['key'] == key:
                 break
         else:
-            g = {'key': key, 'K': K, 'files': [], 'name': f'K{len(groups)}'}
+            g = {'key': key, 'K': K, 'files': [], 'name': f'K{len(groups)}', 'stub': 'measure_error' in spec}
             groups.append(g)
         g['files'].append(spec['id'])
         spec['group'] = g['name']
@@ -101,7 +108,7 @@ def prepare(work: str, tier: str) -> None:
         with open(os.path.join(work, g['name'] + '.json'), 'w') as f:
             json.dump(g['K'], f)
     with open(os.path.join(work, 'manifest.json'), 'w') as f:
-        json.dump({'files': specs, 'groups': [{'name': g['name'], 'files': g['files']} for g in groups]}, f)
+        json.dump({'files': specs, 'groups': [{'name': g['name'], 'files': g['files'], 'stub': g['stub']} for g in groups]}, f)
     print(json.dumps({'files': len(specs), 'groups': {g['name']: g['files'] for g in groups}}))
 
 
@@ -110,69 +117,86 @@ class FileCtx:
     def __init__(self, spec: dict, work: str) -> None:
         self.spec = spec
         self.path = spec['path']
-        self.ref = L.project_file(self.path)
-        self.trivial = sorted(v for v in L.PROJECT_ORDER if L.is_trivial(self.ref['views'][v]))
+        try:
+            self.ref = L.project_file(self.path)
+            self.trivial = sorted(v for v in L.PROJECT_ORDER if L.is_trivial(self.ref['views'][v]))
+        except Exception:   # noqa: BLE001 - reported by the first scenario (stage 'open')
+            self.ref = {'head': {}, 'meta': {}, 'raw': {}, 'views': {v: None for v in L.PROJECT_ORDER}, 'errors': {}}
+            self.trivial = []
         self.tmp = os.path.join(work, f'tmp_{spec["id"]}_{os.getpid()}')
 
 
 def run_scenario(ctx: FileCtx, acc: list, tracer: L.Tracer, src: str, full: bool = True) -> dict:
-    """full=False (expensive files): the extra cycles (same object saved again, second access/save cycle) are skipped
-    and logged as 'skipped'; the main cycle and the re-save of the result are always run."""
+    """full=False (expensive files): the extra cycles (same object saved again, second access/save cycle) are skipped;
+    the main cycle and the re-save of the result are always run.  An exception of the code under test ends the
+    scenario; the stage and the exception type are logged ('failed') and judged like any other observation."""
     p1, p2, p3, p4 = (ctx.tmp + s for s in ('.1.bsp', '.2.bsp', '.3.bsp', '.4.bsp'))
-    bsp = BSP(ctx.path)
-    with tracer.recording():
-        for v in acc:
-            getattr(bsp, v)
-    tracer.take()
-    cache0 = L.cache_of(bsp)
-    with tracer.recording():
-        L.quiet_save(bsp, p1)
-    ev = []
-    for e in tracer.take():
-        if e[0] == 'get':
-            ev.append(['get', e[1], 'hit' if e[2] else 'miss'])
-        elif e[0] == 'write':
-            ev.append(['write', e[1], e[2]])
-        else:
-            ev.append([e[0], e[1], ''])
-    cache1 = L.cache_of(bsp)
-    with open(p1, 'rb') as f:
-        bytes1 = f.read()
-    again = 'same'
-    if full:
-        # the same object saved once more: same bytes?
-        L.quiet_save(bsp, p2)
-        with open(p2, 'rb') as f:
-            again = 'same' if f.read() == bytes1 else 'diff'
-    new = L.project_file(p1)
-    cmp1 = L.compare_files(ctx.ref, new)
-    # saving the result again (fresh object, nothing accessed) changes nothing
-    b3 = BSP(p1)
-    L.quiet_save(b3, p3)
-    with open(p3, 'rb') as f:
-        resave = 'same' if f.read() == bytes1 else 'diff'
-    cmp2 = {'viewDiff': [], 'headDiff': []}
-    if full:
-        # second cycle with the same accesses on the written file
-        b4 = BSP(p1)
-        for v in acc:
-            getattr(b4, v)
-        L.quiet_save(b4, p4)
-        cmp2 = L.compare_files(ctx.ref, L.project_file(p4))
-    for p in (p1, p2, p3, p4):
-        if os.path.exists(p):
-            os.unlink(p)
     spec = ctx.spec
-    return {
-        'k': 'run', 'file': spec['id'], 'acc': acc, 'cacheAfterAccess': cache0, 'ev': ev, 'cacheAfterSave': cache1,
-        'changed': cmp1['changed'], 'viewDiff': cmp1['viewDiff'], 'headDiff': cmp1['headDiff'], 'metaDiff': cmp1['metaDiff'],
-        'trivial': ctx.trivial, 'resave': resave, 'saveAgain': again,
-        'cycle2': [d for d in cmp2['viewDiff'] if d not in cmp1['viewDiff']] + [[h, 'head'] for h in cmp2['headDiff']],
-        'errors': new['errors'], 'cycles': 'full' if full else 'main',
+    rec = {
+        'k': 'run', 'file': spec['id'], 'acc': acc, 'cacheAfterAccess': [], 'ev': [], 'cacheAfterSave': [],
+        'changed': [], 'viewDiff': [], 'headDiff': [], 'metaDiff': [], 'trivial': ctx.trivial, 'resave': 'same',
+        'saveAgain': 'same', 'cycle2': [], 'errors': {}, 'cycles': 'full' if full else 'main', 'failed': [],
         'sig': {'kind': 'run', 'action': 'save', 'layout': spec['layout'], 'compress': spec['compress'],
                 'variant': spec['variant'], 'src': src},
         'spec': {k: spec[k] for k in ('id', 'layout', 'compress', 'variant', 'wseed', 'heavy')},
     }
+    stage = 'open'
+    try:
+        bsp = BSP(ctx.path)
+        stage = 'access'
+        with tracer.recording():
+            for v in acc:
+                getattr(bsp, v)
+        tracer.take()
+        rec['cacheAfterAccess'] = L.cache_of(bsp)
+        stage = 'save'
+        try:
+            with tracer.recording():
+                L.quiet_save(bsp, p1)
+        finally:
+            for e in tracer.take():
+                if e[0] == 'get':
+                    rec['ev'].append(['get', e[1], 'hit' if e[2] else 'miss'])
+                elif e[0] == 'write':
+                    rec['ev'].append(['write', e[1], e[2]])
+                else:
+                    rec['ev'].append([e[0], e[1], ''])
+        rec['cacheAfterSave'] = L.cache_of(bsp)
+        with open(p1, 'rb') as f:
+            bytes1 = f.read()
+        if full:
+            stage = 'saveAgain'     # the same object saved once more: same bytes?
+            L.quiet_save(bsp, p2)
+            with open(p2, 'rb') as f:
+                rec['saveAgain'] = 'same' if f.read() == bytes1 else 'diff'
+        stage = 'reread'
+        new = L.project_file(p1)
+        cmp1 = L.compare_files(ctx.ref, new)
+        rec.update(changed=cmp1['changed'], viewDiff=cmp1['viewDiff'], headDiff=cmp1['headDiff'], metaDiff=cmp1['metaDiff'],
+                   errors=new['errors'])
+        stage = 'resave'            # saving the result again (fresh object, nothing accessed) changes nothing
+        b3 = BSP(p1)
+        L.quiet_save(b3, p3)
+        with open(p3, 'rb') as f:
+            rec['resave'] = 'same' if f.read() == bytes1 else 'diff'
+        if full:
+            stage = 'cycle2'        # second cycle with the same accesses on the written file
+            b4 = BSP(p1)
+            for v in acc:
+                getattr(b4, v)
+            L.quiet_save(b4, p4)
+            cmp2 = L.compare_files(ctx.ref, L.project_file(p4))
+            rec['cycle2'] = [d for d in cmp2['viewDiff'] if d not in cmp1['viewDiff']] + [[h, 'head'] for h in cmp2['headDiff']]
+    except Exception as exc:    # noqa: BLE001 - whatever the code under test raises is an observation
+        rec['failed'] = [stage, type(exc).__name__]
+        rec['sig']['failed'] = stage
+        tracer.on = False
+        tracer.stack.clear()
+        tracer.take()
+    for p in (p1, p2, p3, p4):
+        if os.path.exists(p):
+            os.unlink(p)
+    return rec
 
 
 def sequences(edges: list, tier: str, rng: random.Random, heavy: bool) -> list:
@@ -189,7 +213,7 @@ def sequences(edges: list, tier: str, rng: random.Random, heavy: bool) -> list:
         seqs.append(([v], 'single'))
     pairs = [[v, w] for v, t in succ[init] for w, _ in succ.get(t, ())]
     if heavy:
-        pairs = rng.sample(pairs, 8)
+        pairs = rng.sample(pairs, 40 if tier == 'thorough' else 8)
     elif tier != 'thorough':
         pairs = rng.sample(pairs, 60)
     seqs += [(p, 'pair') for p in pairs]
@@ -203,7 +227,7 @@ def sequences(edges: list, tier: str, rng: random.Random, heavy: bool) -> list:
                 paths[t] = paths[s] + [v]
                 todo.append(t)
     deep = [p for p in paths.values() if len(p) > 2]
-    n_deep = len(deep) if (tier == 'thorough' and not heavy) else (4 if heavy else 40)
+    n_deep = len(deep) if (tier == 'thorough' and not heavy) else ((40 if tier == 'thorough' else 4) if heavy else 40)
     deep = deep if n_deep >= len(deep) else rng.sample(deep, n_deep)
     seqs += [(p, 'state') for p in deep]
     # walks: random orders, with repeated requests of views already cached
@@ -236,6 +260,8 @@ def run(work: str, job: int, edge_file: str, out_path: str) -> None:
     rng = random.Random(f'{hlib.seed()}/{spec["id"]}')
     seqs, n_states = sequences(edges, tier, rng, spec['heavy'])
     ctx = FileCtx(spec, work)
+    import time
+    t0 = time.time()
     stats = {'scenarios': 0, 'file': spec['id'], 'part': part, 'states': n_states}
     for n, (acc, src) in enumerate(seqs):
         if n % spec['parts'] != part:
@@ -246,6 +272,7 @@ def run(work: str, job: int, edge_file: str, out_path: str) -> None:
         stats['scenarios'] += 1
     out.close()
     tracer.uninstall()
+    stats['wall_s'] = round(time.time() - t0, 1)
     print(json.dumps(stats))
 
 
